@@ -76,6 +76,17 @@ RICH_STEPS = [".x", ".corners", ".y_1", "[0]", "[i]", "[1:2]", "[i, 0]", "['k']"
 STANDIN_BASES = ["(a + i)", "'lit'", "[1, 2]", "(not a)", "f'{a}'", "{1: 2}", "(a if i else p)", "(a.m < i)", "(-a)", "(lambda: 0)"]
 
 
+# whole expressions with NO name (the README: '@' + the AST class), `{B}` = the probe's own variable; a
+# safe-naming consumer must spell them (and whatever is stacked on them) without raising
+STANDIN_TEMPLATES = [
+    "({B}.A if {B}.c else {B}.D)", "({B}.A or {B}.D)", "({B}.A, {B}.D)[0]", "(lambda: {B}.A)()", "(lambda: {B}.A)",
+    "[{B}.A][0]", "{{1: {B}.A}}[1]", "(-{B}.A)", "({B}.A + {B}.D)", "(not {B}.A)", "({B}.A < {B}.D)", "f'{{{B}}}'",
+    "='lit'", "=(1)", "=None", "=...", "({B}.A for _ in {B}.D)", "[_ for _ in {B}.D][0]", "(wal := {B}.A)",
+    "{{{B}.A}}", "({B}.A,)", "[{B}.A]", "{{1: {B}.A}}", "[_ for _ in {B}.D]", "{{_ for _ in {B}.D}}", "{{_: 1 for _ in {B}.D}}",
+]
+STANDIN_STEPS = ["", ".x", "[0]", "()", ".x.y", "[0].x"]
+
+
 # always present, whatever the seed: the README's own example shape, and one chain per mechanism that
 # derives a basename from the spelled string (first dotted component with brackets)
 CURATED = ["shape.corners[0].anchor", "shape[i].y.z", "shape(p).y.z", "shape.origin"]
@@ -114,12 +125,29 @@ def ends_in_call(node):
     return isinstance(node, ast.Call)
 
 
+XATTR_SECTION = {"getattr": "gets", "hasattr": "gets", "setattr": "sets", "delattr": "dels"}
+
+
+def xattr_call(node):
+    """(builtin, object) when `node` is a DIRECT getattr-family call with a string-literal name (the
+    README: 'spells as the equivalent dotted access'), else None."""
+    if isinstance(node, ast.Call) and isinstance(node.func, ast.Name) and node.func.id in XATTRS and len(node.args) >= 2 \
+            and isinstance(node.args[1], ast.Constant) and isinstance(node.args[1].value, str):
+        return node.func.id, node.args[0]
+    return None
+
+
 def spine(node):
-    """The expression and the prefixes of its func/value spine, outermost first."""
+    """The expression and the prefixes of its func/value spine, outermost first. The spine the README
+    reads: through a direct literal getattr-family call it continues in the OBJECT (the call spells as
+    the dotted access `O.k`), not in the builtin's name."""
     out = []
     while True:
         out.append(node)
-        if isinstance(node, ast.Call):
+        xc = xattr_call(node)
+        if xc is not None:
+            node = xc[1]
+        elif isinstance(node, ast.Call):
             node = node.func
         elif isinstance(node, (ast.Attribute, ast.Subscript, ast.Starred)):
             node = node.value
@@ -142,9 +170,10 @@ def has_xattr(node):
 
 class Slot:
     def __init__(self, sid, body, *, target=False, strict=False, attr_only=False, no_call_end=False, is_async=False,
-                 level="fn", expect=None, standin=False, prelude=""):
+                 level="fn", expect=None, standin=False, prelude="", xarg=False):
         self.id = sid
-        self.body = body              # statements of the probe function, `{E}` = the expression
+        self.body = body              # statements of the probe function, `{E}` = the expression (module level: a
+                                      # tuple = variants of the statement, taken in turn)
         self.target = target          # E must be an assignment target (not ending in a call)
         self.strict = strict          # the site names with safe=False: E's base must be a variable
         self.attr_only = attr_only    # E must be a pure attribute chain
@@ -154,6 +183,7 @@ class Slot:
         self.expect = expect
         self.standin = standin        # stand-in bases allowed (the slot names with safe=True only)
         self.prelude = prelude
+        self.xarg = xarg              # E may be a DIRECT literal getattr-family call (argument / value slots)
 
 
 def X(**kw):
@@ -248,7 +278,7 @@ def sl_defaultdict(S, B, e):
 
 
 FN_SLOTS = [
-    Slot("load", "return {E}", standin=True, expect=sl_access("gets")),
+    Slot("load", "return {E}", standin=True, xarg=True, expect=sl_access("gets")),
     Slot("load-stmt", "{E}\n    return a", standin=True, expect=sl_access("gets")),
     Slot("walrus-value", "if (t := {E}):\n        return t", standin=True, expect=sl_access("gets")),
     Slot("store", "{E} = a.v", target=True, strict=True, expect=sl_access("sets")),
@@ -267,15 +297,15 @@ FN_SLOTS = [
     Slot("genexp", "return any(1 for {E} in a.items)", target=True, strict=True, expect=sl_access("sets")),
     Slot("call", "{E}(a.v)\n    return a", standin=True, expect=None),         # expression = the call: see _slot_expr
     Slot("ret-call", "return {E}(a.v)", standin=True, expect=None),
-    Slot("callarg", "callee({E})", standin=True, expect=sl_callarg),
-    Slot("callkw", "callee(a.v, q={E})", standin=True, expect=sl_callkw),
+    Slot("callarg", "callee({E})", standin=True, xarg=True, expect=sl_callarg),
+    Slot("callkw", "callee(a.v, q={E})", standin=True, xarg=True, expect=sl_callkw),
     Slot("callstar", "callee(*{E})", standin=True, expect=sl_callstar),
     Slot("classassign", "{E} = Point(a.u, a.v)", target=True, strict=True, expect=sl_classassign(["x", "y"])),
     Slot("classassign-ann", "{E}: Point = Point(a.u, a.v)", target=True, strict=True, expect=sl_classassign(["x", "y"])),
     Slot("classassign-nt", "{E} = NT(a.u, a.v)", target=True, strict=True, expect=sl_classassign([])),
-    Slot("classarg", "t = Point({E}, a.v)", standin=True, expect=sl_classarg(1)),
-    Slot("classkw", "t = Point(a.u, y={E})", standin=True, expect=sl_classkw),
-    Slot("retclass", "return Point({E}, a.v)", standin=True, expect=sl_classarg(1)),
+    Slot("classarg", "t = Point({E}, a.v)", standin=True, xarg=True, expect=sl_classarg(1)),
+    Slot("classkw", "t = Point(a.u, y={E})", standin=True, xarg=True, expect=sl_classkw),
+    Slot("retclass", "return Point({E}, a.v)", standin=True, xarg=True, expect=sl_classarg(1)),
     Slot("lambda-assign", "{E} = lambda z: z.w\n    return {E}(a.v)", target=True, strict=True, expect=sl_lambda),
     Slot("namedtuple-assign", "{E} = namedtuple('Q', ['m'])\n    t = {E}(a.v)", target=True, strict=True, expect=sl_nt),
     Slot("getattr", "return getattr({E}, 'k')", strict=True, no_call_end=True, expect=sl_xattr("gets", ".k")),
@@ -306,18 +336,42 @@ def ml_key_only(S, B, e):
     return X(res_calls=[], extra=_n("gets", B + ".q"))
 
 
+def ml_class(always_key, *more_keys):
+    """A class statement with the expression among its bases: the class (its initialiser) is a key of the
+    document when it has an `__init__` or the DOCUMENTED spelling of a base is `Enum` / `….Enum` /
+    `NamedTuple` / `….NamedTuple` (the slot's body appends that attribute, or E itself is so spelled)."""
+    def f(S, B, e):
+        keyed = always_key or any(S == h or S.endswith("." + h) for h in ("Enum", "NamedTuple"))
+        return X(res_calls=[], extra=_n("gets", B + ".q"), keys=(["K{K}"] if keyed else []) + list(more_keys))
+    return f
+
+
 MODULE_SLOTS = [
     Slot("module-lambda", "{E} = lambda z: z.w", target=True, strict=True, level="module", expect=ml_lambda),
     Slot("module-namedtuple", "{E} = namedtuple('Q', ['m'])", target=True, strict=True, level="module", expect=ml_lambda),
     Slot("module-walrus-lambda", "{E} = ({H} := lambda z: z.ww)", target=True, strict=True, level="module", expect=ml_lambda),
-    Slot("module-namedtuple-func", "T{K} = {E}.namedtuple('Q', ['m'])", strict=True, level="module",
+    Slot("module-namedtuple-func", "T{K} = {E}.namedtuple('Q', ['m'])", standin=True, level="module",
          expect=lambda S, B, e: X(res_calls=[], extra=_n("gets", B + ".q"), keys=["T{K}"]), prelude="use-base"),
     Slot("module-store", "{E} = 1", target=True, strict=True, level="module", expect=ml_quiet, prelude="use-base"),
     Slot("module-del", "{B} = 1\ndel {E}", target=True, strict=True, level="module", expect=ml_quiet, prelude="use-base"),
-    # the spelling of a base only feeds the Enum / NamedTuple heuristics of classes without __init__
-    Slot("class-base", "class K{K}({E}):\n    RED = 1", strict=True, level="module", expect=ml_key_only, prelude="use-base"),
-    Slot("class-base-enum", "class K{K}({E}.Enum):\n    RED = 1", strict=True, level="module",
-         expect=lambda S, B, e: X(res_calls=[], extra=_n("gets", B + ".q"), keys=["K{K}"]), prelude="use-base"),
+    # the spelling of a base only feeds the Enum / NamedTuple heuristics of classes without __init__;
+    # `base_names` names with safe=True: EVERY expression is admissible as a base, also the unnameable ones
+    Slot("class-base", ("class K{K}({E}):\n    RED = 1", "class K{K}({E}):\n    pass"), standin=True, level="module",
+         expect=ml_class(False), prelude="use-base"),
+    Slot("class-base-enum", "class K{K}({E}.Enum):\n    RED = 1", standin=True, level="module",
+         expect=ml_class(True), prelude="use-base"),
+    Slot("class-base-nt", "class K{K}({E}.NamedTuple):\n    u: int\n    v: int", standin=True, level="module",
+         expect=ml_class(True), prelude="use-base"),
+    Slot("class-base-second", ("class K{K}(object, {E}):\n    RED = 1", "class K{K}({E}, metaclass=type):\n    level = 1",
+                               "class K{K}({E}, object):\n    pass"),
+         standin=True, level="module", expect=ml_class(False), prelude="use-base"),
+    Slot("class-base-starred", "class K{K}(*{E}):\n    RED = 1", standin=True, level="module", expect=ml_class(False),
+         prelude="use-base"),
+    Slot("class-base-static", "class K{K}({E}):\n    @staticmethod\n    def sm(a):\n        return a.k", standin=True,
+         level="module", expect=ml_class(False, "K{K}.sm"), prelude="use-base"),
+    # the sibling: a class WITH an initialiser (the heuristics are not consulted; the class is reported)
+    Slot("class-base-init", "class K{K}({E}):\n    def __init__(self, a):\n        self.a = a.k", standin=True, level="module",
+         expect=ml_class(True), prelude="use-base"),
     Slot("class-body-assign", "class K{K}:\n    {E} = 1\n    def __init__(self, a):\n        self.a = a.k", target=True, strict=True,
          level="module", expect=ml_key_only, prelude="use-base"),
     # get_attrname accepts Name / Attribute / Call only (anything else: TypeError, a C07 known finding)
@@ -333,7 +387,7 @@ MODULE_SLOTS = [
 
 
 class Probe:
-    __slots__ = ("slot", "expr", "name", "src_fn", "slot_expr", "S", "B", "pairs", "want", "node", "base_var")
+    __slots__ = ("slot", "expr", "name", "src_fn", "slot_expr", "S", "B", "pairs", "want", "node", "base_var", "steps", "variant")
 
 
 def _slot_expr(slot, expr):
@@ -356,14 +410,50 @@ def admissible(slot, expr):
         return None
     if (slot.strict or not slot.standin) and not variable_based:
         return None
-    if has_xattr(node):
+    if has_xattr(node) and not (slot.xarg and xarg_ok(node)):
         return None
     return node
+
+
+def xarg_ok(node):
+    """A direct literal getattr-family call whose object is a variable-based getattr-family-free chain
+    that does not end in a call, or (recursively) such a call of the SAME builtin; the remaining
+    arguments are getattr-family-free. (An object that is a call result / an unnameable expression ends
+    the analysis: C10 safe-fatal:xattr-object-is-call / safe-raises:xattr-object-unnameable, and the C09
+    findings about the call record; those classes belong to the namer-level stage.)"""
+    xc = xattr_call(node)
+    if xc is None or node.keywords or any(has_xattr(a) for a in node.args[1:]):
+        return False
+    fn, obj = xc
+    inner = xattr_call(obj)
+    if inner is not None:
+        return inner[0] == fn and xarg_ok(obj)
+    if has_xattr(obj) or isinstance(obj, ast.Call) or not isinstance(obj, (ast.Name, ast.Attribute, ast.Subscript)):
+        return False
+    return isinstance(spine(obj)[-1], ast.Name)
+
+
+XARG_FIXED = [
+    "getattr(shape, 'k')", "hasattr(shape, 'k')", "setattr(shape, 'k', a.v)", "delattr(shape, 'k')",
+    "getattr(getattr(shape, 'j'), 'k')", "getattr(shape.x, 'k')", "getattr(shape[i], 'k')", "getattr(shape(p).y, 'k')",
+    "getattr(shape, 'k', None)", "hasattr(hasattr(shape.x, 'j'), 'k')", "setattr(shape[i].y, 'k', a.v)",
+    "delattr(delattr(shape, 'j'), 'k')",
+]
+
+
+def random_xarg(rng):
+    fn = rng.choice(XATTRS)
+    obj = random_expr(rng, target=True)
+    for _ in range(rng.choice((0, 0, 1, 2))):
+        obj = f"{fn}({obj}, '{rng.choice('jmn')}'" + (", a.v)" if fn == "setattr" else ")")
+    return f"{fn}({obj}, 'k'" + (", a.v)" if fn == "setattr" else rng.choice((")", ")", ", None)") if fn == "getattr" else ")"))
 
 
 def fn_probe(slot, expr, k):
     p = Probe()
     p.slot, p.expr = slot, expr
+    p.steps = None
+    p.variant = 0
     p.name = f"f{k}_{slot.id.replace('-', '_')}"
     body = slot.body.replace("{E}", expr)
     p.src_fn = f"{'async ' if slot.is_async else ''}def {p.name}({FN_PARAMS}):\n    {body}\n"
@@ -373,13 +463,25 @@ def fn_probe(slot, expr, k):
     return p
 
 
-def module_probe(slot, expr_steps, k):
+def module_expr(base, steps):
+    """`steps` is either a suffix for the probe's variable (`.x[0]`) or a whole template with `{B}`
+    for it (an unnameable expression, possibly with steps stacked on it; a template without the
+    variable starts with '=')."""
+    if "{B}" in steps or steps.startswith("="):
+        return steps.lstrip("=").replace("{B}", base)
+    return base + steps
+
+
+def module_probe(slot, expr_steps, k, variant=None):
     p = Probe()
     base = f"ns{k}"
-    expr = base + expr_steps
+    expr = module_expr(base, expr_steps)
+    p.steps = expr_steps
     p.slot, p.expr = slot, expr
     p.name = f"use{k}_{slot.id.replace('-', '_')}"
-    stmt = slot.body.replace("{E}", expr).replace("{H}", f"h{k}").replace("{B}", base).replace("{K}", str(k))
+    bodies = slot.body if isinstance(slot.body, tuple) else (slot.body,)
+    p.variant = (k if variant is None else variant) % len(bodies)
+    stmt = bodies[p.variant].replace("{E}", expr).replace("{H}", f"h{k}").replace("{B}", base).replace("{K}", str(k))
     use = f"{base}.q" if slot.prelude == "use-base" else f"{expr}(a.v)"
     p.src_fn = f"{stmt}\n\n\ndef {p.name}(a):\n    return {use}\n"
     p.slot_expr = expr
@@ -415,6 +517,13 @@ def generate(tier, rng):
         for e in CURATED:
             if admissible(slot, e) is not None and e not in exprs:
                 exprs.append(e)
+        if slot.xarg:
+            # the value in the slot is a DIRECT getattr-family call (README: the dotted access), for
+            # positional and keyword slots alike
+            cand = list(XARG_FIXED) + [random_xarg(rng) for _ in range(max(2, n_rand // 2))]
+            for e in cand:
+                if admissible(slot, e) is not None and e not in exprs:
+                    exprs.append(e)
         for e in exprs:
             k += 1
             probes.append(fn_probe(slot, e, k))
@@ -423,8 +532,16 @@ def generate(tier, rng):
         ex = list(msteps)
         for _ in range(n_rand):
             ex.append(random_expr(rng, base="", target=slot.target, attr_only=slot.attr_only))
-        for st in ex:
-            if admissible(slot, "ns" + st) is None:
+        if slot.standin and not slot.strict:
+            # every unnameable expression class, bare and below each kind of step; a seeded sample deeper
+            pool = [t + st for t in STANDIN_TEMPLATES for st in STANDIN_STEPS]
+            off = rng.randrange(3)
+            core = [t for t in STANDIN_TEMPLATES] + [t + rng.choice(STANDIN_STEPS[1:]) for t in STANDIN_TEMPLATES[off::3]]
+            ex += core if tier == "quick" else pool
+            for _ in range(n_rand if tier != "quick" else 2):
+                ex.append(random_expr(rng, base=rng.choice(STANDIN_TEMPLATES), attr_only=slot.attr_only))
+        for st in dict.fromkeys(ex):
+            if not st or admissible(slot, module_expr("ns", st)) is None:
                 continue
             k += 1
             probes.append(module_probe(slot, st, k))
@@ -467,10 +584,29 @@ def attach_spec(probes, model, res):
         else:
             p.want = p.slot.expect(S, B, p.node)
         p.S, p.B = S, B
-        if isinstance(p.node, ast.Call) and p.slot.id not in CALL_SLOTS:
+        xc = xattr_call(p.node)
+        if xc is not None and p.slot.id not in CALL_SLOTS:
+            _xattrify(p.want, S, XATTR_SECTION[xc[0]])
+        elif isinstance(p.node, ast.Call) and p.slot.id not in CALL_SLOTS:
             _callify(p.want, S)
         ok.append(p)
     return ok
+
+
+def _xattrify(w, S, sec):
+    """E is a direct literal getattr-family call: rattr reports it as the ACCESS `O.k` in the section
+    of the builtin (getattr / hasattr: gets, setattr: sets, delattr: dels), its object's dotted prefixes
+    as gets; where the slot spells E as an argument the spelling is the same dotted name."""
+    w["xattr_full"] = S
+    for d in (w["names"], w["res_names"]):
+        if d is None:
+            continue
+        for n in (S, "*" + S):
+            if sec != "gets" and n in d.get("gets", []):
+                d["gets"] = [x for x in d["gets"] if x != n]
+                d.setdefault(sec, []).append(S)
+    w["extra"] = {k: list(v) for k, v in w["extra"].items()}
+    w["extra"].setdefault("gets", []).extend(_dotted_prefixes(S))
 
 
 def _callify(w, S):
@@ -554,7 +690,7 @@ def _basename_tag(p, n):
         without brackets) gets no tag: the per-slot signature."""
     if p.slot.id == "sorted" and n != p.S:
         return ":unbound-name-basename-is-argument-spelling"
-    if p.slot.id in XATTR_SLOTS:
+    if p.slot.id in XATTR_SLOTS or p.want.get("xattr_full") is not None:
         role = xattr_role(p, n)
         if role == "lhs" and default_base(n) != p.B:
             return ":keeps-brackets:xattr-lhs"
@@ -855,7 +991,7 @@ def cli(project, target, extra=()):
     env = dict(os.environ, PYTHONDONTWRITEBYTECODE="1", PYTHONWARNINGS="ignore")
     p = subprocess.run([sys.executable, "-m", "rattr", "-o", "results", "-w", "none", *extra, target], cwd=str(project), env=env,
                        capture_output=True, text=True, timeout=300)
-    r = {"exit": p.returncode, "stderr": p.stderr[-1500:]}
+    r = {"exit": p.returncode, "stderr": p.stderr[-1500:], "traceback": "Traceback (most recent call last)" in p.stderr}
     if p.returncode == 0:
         try:
             r["doc"] = _doc_of(p.stdout)
@@ -973,6 +1109,9 @@ def signature(channel, slot_id, kind):
 def violation(channel, p, kind, detail, module=None, extra=None):
     case = {"stage": "sites", "channel": channel, "slot": p.slot.id, "expr": p.expr, "function": p.name,
             "source": p.src_fn, "documented": {"spelling": p.S, "base": p.B}}
+    if p.steps is not None:
+        case["expr_template"] = p.steps
+        case["variant"] = p.variant
     if extra:
         case.update(extra)
     return {"signature": signature(channel, p.slot.id, kind), "case": case, "detail": detail}
@@ -1081,6 +1220,9 @@ def run_stage(res, tier, rng, model):
                                           "diff": f"in-process document != CLI document for {diff[:5]}"})
             if docs:
                 doc = docs[-1][1]
+                keys_by_root = {}
+                for k in doc:
+                    keys_by_root.setdefault(root_of(k), []).append(k)
                 for p in fn_probes + mod_probes:
                     res.evaluations += 1
                     res.nontrivial.add(common.digest(["site-results", p.slot.id, p.expr]))
@@ -1094,13 +1236,13 @@ def run_stage(res, tier, rng, model):
                     for key in [x.replace("{K}", p.name[3:p.name.index("_")]) for x in p.want["keys"]]:
                         if key not in doc:
                             vs.append(("missing-documented-name", {"section": "document keys", "want": key,
-                                                                   "have_rooted": sorted(k for k in doc if root_of(k) == p.B)}))
+                                                                   "have_rooted": sorted(keys_by_root.get(p.B, ()))}))
                     for dg in p.want["nodiag"]:
                         if dg in ip.get("diags", []):
                             vs.append(("spurious-diagnostic", {"diag": dg}))
                     if p.slot.level == "module":
-                        for k in doc:
-                            if root_of(k) == p.B and k not in {s for s, _ in p.pairs}:
+                        for k in keys_by_root.get(p.B, ()):
+                            if k not in {s for s, _ in p.pairs}:
                                 vs.append(("undocumented-name", {"section": "document keys", "got": k}))
                     if not vs:
                         res.count("site:results:verdict:holds")
@@ -1146,6 +1288,27 @@ def run_stage(res, tier, rng, model):
                                            "detail": cl["stderr"]})
                     continue
                 judge_channel("results-import", ps, cl["doc"], ARG_STYLES, {"import_style": style})
+
+            # ---------------- module-level slot families (class statements, module assignments) in a followed import:
+            # the file is only imported; one unnameable base there must not take the run down
+            _tick("import channel (functions)")
+            (project / "libm.py").write_text(module_source(mod_probes))
+            (project / "t_libm.py").write_text(module_wrappers(mod_probes))
+            cl = cli(project, "t_libm.py", extra=("-f", "1"))
+            res.count("site:results-import:module-level:cli:exit:" + str(cl["exit"]))
+            if cl["exit"] != 0 or cl.get("doc") is None:
+                _bisect(res, project, mod_probes, add, imported=True)
+            else:
+                for p in mod_probes:
+                    res.evaluations += 1
+                    res.nontrivial.add(common.digest(["site-results-import-module", p.slot.id, p.expr]))
+                    res.count("site:results-import:" + p.slot.id)
+                    if cl["doc"].get("w_" + p.name) is None:
+                        res.count("site:results-import:verdict:function-not-reported")
+                        add(violation("results-import", p, "function-not-reported", {"function": "w_" + p.name},
+                                      extra={"module_header": HEADER, "import_style": "module"}))
+                    else:
+                        res.count("site:results-import:verdict:holds")
         finally:
             shutil.rmtree(project, ignore_errors=True)
 
@@ -1186,29 +1349,46 @@ def _by_class(tkeys, skeys):
     return out
 
 
-def _bisect(res, project, probes, add):
-    """The batch did not produce a document: find the probes that break the run, slot by slot."""
+def module_wrappers(probes):
+    """A target that only IMPORTS the file of the module-level probes and calls their `use…` functions."""
+    return "import libm\n\n\n" + "".join(f"def w_{p.name}(a2):\n    return libm.{p.name}(a2)\n\n\n" for p in probes)
+
+
+def _bisect(res, project, probes, add, imported=False):
+    """The batch did not produce a document: find the probes that break the run, slot by slot (with
+    `imported` the probes live in the followed import `libm` of the target)."""
     by_slot = {}
     for p in probes:
         by_slot.setdefault(p.slot.id, []).append(p)
-    for sid, ps in by_slot.items():
+
+    def run(ps):
+        if imported:
+            (project / "libm.py").write_text(module_source(ps))
+            (project / "one.py").write_text(module_wrappers(ps))
+            return cli(project, "one.py", extra=("-f", "1"))
         (project / "one.py").write_text(module_source(ps))
-        cl = cli(project, "one.py")
+        return cli(project, "one.py")
+
+    for sid, ps in by_slot.items():
+        cl = run(ps)
         if cl["exit"] == 0 and cl.get("doc") is not None:
             continue
         bad = None
         for p in ps:
-            (project / "one.py").write_text(module_source([p]))
-            c1 = cli(project, "one.py")
+            c1 = run([p])
             if c1["exit"] != 0 or c1.get("doc") is None:
                 bad = (p, c1)
                 break
         if bad is None:
             bad = (ps[0], cl)
         p, c1 = bad
-        tb = "Traceback (most recent call last)" in c1["stderr"]
-        add(violation("results", p, "outcome:" + ("crash" if tb else f"exit-{c1['exit']}"), {"stderr": c1["stderr"][-800:]},
-                      extra={"module_header": HEADER}))
+        tb = c1.get("traceback") or "Traceback (most recent call last)" in c1["stderr"]
+        extra = {"module_header": HEADER}
+        if imported:
+            extra.update({"import_style": "module", "files": {"libm.py": "<header> + " + p.src_fn, "target.py": module_wrappers([p])},
+                          "cmd": "python -m rattr -o results -w none -f 1 target.py"})
+        add(violation("results-import" if imported else "results", p, "outcome:" + ("crash" if tb else f"exit-{c1['exit']}"),
+                      {"stderr": c1["stderr"][-800:]}, extra=extra))
 
 
 # ------------------------------------------------------------------ replay
@@ -1226,7 +1406,7 @@ def replay_case(case):
     if slot.level == "fn":
         p = fn_probe(slot, case["expr"], 1)
     else:
-        p = module_probe(slot, _steps_of(case["expr"]), 1)
+        p = module_probe(slot, case.get("expr_template") or _steps_of(case["expr"]), 1, variant=case.get("variant", 1))
     ps = attach_spec([p], model, res)
     out = {"case": {"slot": slot.id, "expr": case["expr"], "source": p.src_fn}, "documented": {"spelling": p.S, "base": p.B}}
     sites = c10scan.scan(Path(sys.modules["rattr"].__file__).resolve().parent.parent)
@@ -1243,10 +1423,21 @@ def replay_case(case):
         (project / "target.py").write_text(module_source(ps))
         cl = cli(project, "target.py")
         out["cli_exit"] = cl["exit"]
+        if cl["exit"] != 0:
+            out["cli_stderr_tail"] = cl["stderr"][-600:]
         if cl.get("doc"):
             out["results"] = cl["doc"].get(p.name)
             out["document_keys_rooted_at_base"] = sorted(k for k in cl["doc"] if root_of(k) == p.B)
             out["results_verdict"] = [k for k, _ in judge_doc(p, cl["doc"].get(p.name) or {})]
+        if slot.level == "module" and case.get("channel") == "results-import":
+            (project / "libm.py").write_text(module_source(ps))
+            (project / "t.py").write_text(module_wrappers(ps))
+            cl = cli(project, "t.py", extra=("-f", "1"))
+            out["import_files"] = {"libm.py": "<header> + " + p.src_fn, "t.py": module_wrappers(ps)}
+            out["import_cli_exit"] = cl["exit"]
+            out["import_cli_stderr_tail"] = cl["stderr"][-600:]
+            if cl.get("doc"):
+                out["import_entry"] = cl["doc"].get("w_" + p.name)
         # the probe called from another analysed function (channels results-caller / results-import)
         st = next((x for x in ARG_STYLES if x[0] == case.get("arg_style")), None)
         if slot.level == "fn" and (st is not None or case.get("channel") in ("results-caller", "results-import")):
